@@ -41,6 +41,11 @@ pub enum Prog {
     Suspend { id: i32, delay_ms: u32, after: bool, body: Box<Prog> },
     /// `context.fail(..)`.
     Fail,
+    /// `first.and_then(|()| body)`: unlike `Seq`/`followed_by`, the first part is an arbitrary (multi-step)
+    /// handler whose intermediate steps may carry modifications through the `AndThen` combinator.
+    AndThen { first: Box<Prog>, body: Box<Prog> },
+    /// `context.stop()`: ends the handler and everything it interrupted, `on_stop` runs, the agent ends.
+    Stop,
 }
 
 #[derive(Form, Debug, Clone, PartialEq, Eq)]
@@ -65,6 +70,11 @@ pub enum Ins {
     Susp { id: i32, delay: i32, after: bool },
     #[form(tag = "fail")]
     Fail,
+    /// Followed by its two sub-programs.
+    #[form(tag = "andthen")]
+    AndThen,
+    #[form(tag = "stop")]
+    Stop,
 }
 
 /// What a peer sends to the `run` lane.
@@ -88,6 +98,7 @@ impl Prog {
         match self {
             Prog::Seq { items, .. } => 1 + items.iter().map(|p| p.nodes()).sum::<usize>(),
             Prog::AndThenGet { body, .. } | Prog::Suspend { body, .. } => 1 + body.nodes(),
+            Prog::AndThen { first, body } => 1 + first.nodes() + body.nodes(),
             _ => 1,
         }
     }
@@ -96,6 +107,7 @@ impl Prog {
         match self {
             Prog::Seq { items, .. } => 1 + items.iter().map(|p| p.depth()).max().unwrap_or(0),
             Prog::AndThenGet { body, .. } | Prog::Suspend { body, .. } => 1 + body.depth(),
+            Prog::AndThen { first, body } => 1 + first.depth().max(body.depth()),
             _ => 1,
         }
     }
@@ -123,6 +135,12 @@ impl Prog {
                 body.flatten(out);
             }
             Prog::Fail => out.push(Ins::Fail),
+            Prog::AndThen { first, body } => {
+                out.push(Ins::AndThen);
+                first.flatten(out);
+                body.flatten(out);
+            }
+            Prog::Stop => out.push(Ins::Stop),
         }
     }
 
@@ -157,6 +175,12 @@ impl Prog {
                 body: Box::new(Prog::parse(code, pos)?),
             },
             Ins::Fail => Prog::Fail,
+            Ins::AndThen => {
+                let first = Box::new(Prog::parse(code, pos)?);
+                let body = Box::new(Prog::parse(code, pos)?);
+                Prog::AndThen { first, body }
+            }
+            Ins::Stop => Prog::Stop,
         })
     }
 
@@ -180,6 +204,10 @@ impl Prog {
                 }
             }
             Prog::AndThenGet { body, .. } => body.suspends(out),
+            Prog::AndThen { first, body } => {
+                first.suspends(out);
+                body.suspends(out);
+            }
             Prog::Suspend { id, body, .. } => {
                 out.push((body.as_ref(), *id));
                 body.suspends(out);
@@ -239,9 +267,30 @@ impl Prog {
                     out.push(Prog::Suspend { id: *id, delay_ms: *delay_ms, after: false, body: body.clone() });
                 }
             }
+            Prog::AndThen { first, body } => {
+                out.push(first.as_ref().clone());
+                out.push(body.as_ref().clone());
+                out.push(Prog::Seq { fold: false, items: vec![first.as_ref().clone(), body.as_ref().clone()] });
+                for v in first.variants() {
+                    out.push(Prog::AndThen { first: Box::new(v), body: body.clone() });
+                }
+                for v in body.variants() {
+                    out.push(Prog::AndThen { first: first.clone(), body: Box::new(v) });
+                }
+            }
             _ => out.push(Prog::Effect { tag: 0 }),
         }
         out
+    }
+
+    pub fn contains_stop(&self) -> bool {
+        match self {
+            Prog::Stop => true,
+            Prog::Seq { items, .. } => items.iter().any(|p| p.contains_stop()),
+            Prog::AndThenGet { body, .. } | Prog::Suspend { body, .. } => body.contains_stop(),
+            Prog::AndThen { first, body } => first.contains_stop() || body.contains_stop(),
+            _ => false,
+        }
     }
 }
 
@@ -281,6 +330,7 @@ pub struct GenCfg {
     /// Chances in per mille.
     pub fail_pm: u64,
     pub suspend_pm: u64,
+    pub stop_pm: u64,
 }
 
 pub fn gen_prog(rng: &mut Rng, a: &mut Alloc, cfg: &GenCfg) -> Prog {
@@ -320,6 +370,9 @@ fn gen_node(rng: &mut Rng, a: &mut Alloc, cfg: &GenCfg, depth: usize, budget: &m
     if rng.below(1000) < cfg.fail_pm {
         return Prog::Fail;
     }
+    if cfg.stop_pm > 0 && rng.below(1000) < cfg.stop_pm {
+        return Prog::Stop;
+    }
     if rng.below(1000) < cfg.suspend_pm {
         let delay_ms = *rng.pick(&[0u32, 0, 1, 2, 5, 10, 20, 50]);
         let after = rng.chance(1, 2);
@@ -343,6 +396,10 @@ fn gen_node(rng: &mut Rng, a: &mut Alloc, cfg: &GenCfg, depth: usize, budget: &m
         let item = rng.range_i(0, N_ITEMS as i64 - 1) as i32;
         let body = gen_node(rng, a, cfg, depth - 1, budget, false);
         Prog::AndThenGet { item, body: Box::new(body) }
+    } else if x < seq_chance + 27 {
+        let first = gen_node(rng, a, cfg, depth - 1, budget, false);
+        let body = gen_node(rng, a, cfg, depth - 1, budget, false);
+        Prog::AndThen { first: Box::new(first), body: Box::new(body) }
     } else {
         gen_leaf(rng, a, cfg)
     }
